@@ -11,11 +11,12 @@ import (
 )
 
 // tryReplay attempts to turn a failed obligation into a concrete failing input on the real code.
-// No generic model-to-input concretisation is built (see DESIGN.md 2.7): it returns "", and the VIOLATION
+// No generic model-to-input concretisation is built (see DESIGN.md 2.7). For failed safety obligations of functions
+// over plain data a witness search on the real code is run (witness.go); otherwise it returns "", and the VIOLATION
 // line then ends with no-failing-input-found. Failing inputs exist for the recorded findings, as Go tests
 // under known_findings_replays/ (run with `lhv replay <file>.go.txt`).
 func (p *Program) tryReplay(cfg *CheckConfig, f *OblResult, replayPath string) string {
-	return ""
+	return p.tryWitness(cfg, f, replayPath)
 }
 
 // Replay re-decides what a replay file records, against the CURRENT tree.
